@@ -1660,7 +1660,7 @@ func PerspectiveOriginHandler(value string) bool {
 	splitVals := strings.Split(value, " ")
 	xValues := []string{"left", "center", "right"}
 	yValues := []string{"top", "center", "bottom"}
-	if len(splitVals) > 1 {
+	if len(splitVals) == 2 {
 		if !in([]string{splitVals[0]}, xValues) && !LengthHandler(splitVals[0]) {
 			return false
 		}
@@ -1885,7 +1885,7 @@ func TransformOriginHandler(value string) bool {
 	splitVals := strings.Split(value, " ")
 	xValues := []string{"left", "center", "right"}
 	yValues := []string{"top", "center", "bottom"}
-	if len(splitVals) > 2 {
+	if len(splitVals) == 3 {
 		if !in([]string{splitVals[0]}, xValues) && !LengthHandler(splitVals[0]) {
 			return false
 		}
@@ -1893,7 +1893,7 @@ func TransformOriginHandler(value string) bool {
 			return false
 		}
 		return LengthHandler(splitVals[2])
-	} else if len(splitVals) > 1 {
+	} else if len(splitVals) == 2 {
 		if !in([]string{splitVals[0]}, xValues) && !LengthHandler(splitVals[0]) {
 			return false
 		}
